@@ -164,7 +164,7 @@ PROPS = {
     "C03": {"suites": c03_suites, "level": "proof", "corpus": ["C03"]},
     "C10": {"suites": c10_suites, "level": "proof", "corpus": ["C10"]},
     "C06": {"suites": c06_suites, "level": "proof", "corpus": ["C06"]},
-    "C16": {"suites": c16_suites, "level": "other", "corpus": ["C16"]},
+    "C16": {"suites": c16_suites, "level": "proof", "corpus": ["C16"]},
     "C05": {"suites": c05_suites, "level": "other", "corpus": ["C05", "C01"]},
     "C01": {"suites": c01_suites, "level": "proof", "corpus": ["C01", "C05", "C08", "C07"]},
     "C07": {"suites": c07_suites, "level": "proof", "corpus": ["C07", "C08"]},
